@@ -76,6 +76,10 @@ def _update_progset(asd_vals, mapping, progset):
         elif target[0] == "outcome":
             progset.covouts[(target[1], target[2])].progs[target[3]] = x
 
+    # The covouts cache quantities derived from the baseline and outcomes, so they need to be refreshed
+    for covout in progset.covouts.values():
+        covout.update_outcomes()
+
 
 def _prepare_bounds(progset, unit_cost_bounds, baseline_bounds, capacity_bounds, outcome_bounds):
     # This is a separate function to _prepare_asd_inputs() because there may be complex logic related to
